@@ -40,7 +40,7 @@ def scan_call(t):
   if t.k != 'call':
     return None
   args = list(t.a[1])
-  kw = dict(t.a[2])
+  kw = util.call_kwargs(t)
   f = args[0] if len(args) > 0 else kw.get('f')
   init = args[1] if len(args) > 1 else kw.get('init')
   xs = args[2] if len(args) > 2 else kw.get('xs')
@@ -214,7 +214,7 @@ def rule_nested_scan(chk, prog):
   callee, subf, init, xs, length = scan_call(level)
   chk.check(callee == scanP and init == initP and xs == xsP and length == Term('sub', lenP, sym.const(0)), rule,
             f'{site}: each level scans lengths[0] steps over xs from init with scan_fn', sym.show(level)[:200], loc, 'scan_fn(sub_scans, init, xs, lengths[0])', sym.show(level)[:200])
-  ok = out.k == 'call' and alg.ext_short(out.a[0]) == 'concatenate' and list(out.a[1]) == [Term('sub', level, sym.const(1))] and (not out.a[2] or dict(out.a[2]).get('axis') == sym.const(0))
+  ok = out.k == 'call' and alg.ext_short(out.a[0]) == 'concatenate' and list(out.a[1]) == [Term('sub', level, sym.const(1))] and (not out.a[2] or util.call_kwargs(out).get('axis') == sym.const(0))
   chk.check(ok, rule, f'{site}: the outputs of the level scan are concatenated along the leading axis', sym.show(out)[:200], loc, 'concatenate(scan(...)[1])', sym.show(out)[:200])
   ok = subf.k == 'call' and subf.a[0] == ckP and len(subf.a[1]) == 1 and subf.a[1][0].k == 'lambda'
   if chk.check(ok, rule, f'{site}: the scanned function is checkpoint_fn(sub_scans)', sym.show(subf), loc):
